@@ -72,6 +72,7 @@ def run(chk: Check, proj: Project) -> None:
     s1a_pairing(chk, proj, w)
     s1bc_tree_handler(chk, proj, w)
     s1d_normal_release(chk, proj, w)
+    s1e_release_guards(chk, proj, w)
     s2a_generators(chk, proj, w)
     s2b_push_pop(chk, proj, w)
     s3_handlers(chk, proj, w)
@@ -227,6 +228,13 @@ def s1bc_tree_handler(chk: Check, proj: Project, w) -> None:
             ok = gk in eff
             chk.ob("S1c", f"perfutil.component:component_post_render:handler-releases:{gk.split(':')[1]}", m.loc(loop), ok,
                    f"tree-level handler {'releases' if ok else 'does NOT release'} {gk.split(':')[1]}[{var}] for every registered id")
+        # ... unconditionally: every release sits directly in the loop body and nothing can skip the rest of an iteration
+        # (which entries a component still holds does not follow from which of them are already gone)
+        jumps = [x for x in ast.walk(loop) if isinstance(x, (ast.Continue, ast.Break, ast.Return))]
+        nested = [c for c in calls(loop.body) if enclosing_stmt(c) not in loop.body and any(op == "remove" for op, _g, _s in w.summ.call_effects(m, f, c))]
+        chk.ob("S1c", "perfutil.component:component_post_render:handler-releases-unconditionally", m.loc((jumps or nested or [loop])[0]), not jumps and not nested,
+               "the sweep has no continue / break and no conditional release" if not jumps and not nested else
+               f"`{short(enclosing_stmt((jumps or nested)[0]))}` lets the sweep skip releases for some ids: a component whose renderer was already taken (it was being rendered when the error happened) keeps its context entry and provide references for good")
         # handler must re-raise
         ok = always_exits(handler.body) and isinstance(handler.body[-1], ast.Raise)
         chk.ob("S1c", "perfutil.component:component_post_render:handler-reraises", m.loc(handler), ok, "tree-level handler ends in a re-raise")
@@ -283,6 +291,23 @@ def s1bc_tree_handler(chk: Check, proj: Project, w) -> None:
 
 
 # ---------------------------------------------------------------------------------------------
+def s1e_release_guards(chk: Check, proj: Project, w) -> None:
+    chk.rule("S1e", "a release function may return early only on a test of ITS key (`key not in registry`): whether OTHER state is empty says nothing about whether this key is registered")
+    m, f = proj.func("perfutil.provide", "unregister_provide_reference")
+    chk.analysed(fkey(m, f))
+    key = params(f)[0]
+    n = 0
+    for st in f.body:
+        if isinstance(st, ast.If) and always_exits(st.body) and any(isinstance(x, ast.Return) for x in st.body):
+            n += 1
+            parts = st.test.values if isinstance(st.test, ast.BoolOp) and isinstance(st.test.op, ast.Or) else [st.test]
+            foreign = [p_ for p_ in parts if not any(isinstance(x, ast.Name) and x.id == key for x in ast.walk(p_))]
+            chk.ob("S1e", f"perfutil.provide:unregister_provide_reference:early-return:{short(st.test, 50)}", m.loc(st), not foreign,
+                   f"`{short(st.test)}` tests the key only" if not foreign else
+                   f"`{short(foreign[0])}` makes the release return early without looking at `{key}`: a component that registered while another provider's data was alive and unregisters after that data is gone stays in all_reference_ids for good (one entry per render)")
+    chk.floor("S1e", n, 1)
+
+
 def s1d_normal_release(chk: Check, proj: Project, w) -> None:
     chk.rule("S1d", "each per-render registry has a removal outside error handlers that cannot be bypassed on the normal path except through tests on its own key / the registries themselves")
     reg_names = {g.name for g in w.registries().values()}
